@@ -52,6 +52,18 @@ pub fn specs() -> Vec<PropSpec> {
         prop!("C13", arena!("C13", 160_000, 4_000_000));
         prop!("C14", arena!("C14", 160_000, 4_000_000));
         prop!("C18", arena!("C18", 160_000, 4_000_000));
+        macro_rules! coll {
+            ($id:literal, $q:expr, $t:expr) => {
+                Stage { engine: || Box::new(crate::coll::CollEngine::new($id)), quick_cases: $q, thorough_cases: $t }
+            };
+        }
+        prop!("C06", coll!("C06", 200_000, 5_000_000));
+        prop!("C08", coll!("C08", 200_000, 5_000_000));
+        prop!("C15", coll!("C15", 100_000, 3_000_000));
+        prop!("C16", coll!("C16", 200_000, 5_000_000));
+        if let Some(p) = v.iter_mut().find(|p| p.id == "C07") {
+            p.stages.push(coll!("C07", 100_000, 2_000_000));
+        }
         // C12: the real-arena half rides on engine A
         if let Some(p) = v.iter_mut().find(|p| p.id == "C12") {
             p.stages.push(arena!("C12", 120_000, 3_000_000));
